@@ -5,6 +5,7 @@ import numpy as np
 from hypothesis import strategies as st
 
 from vf import gen, ref, popgen, llbuild, hbuild, stats
+from vf import analytic_model
 from vf.analytic_model import ref_outputs
 from vf.core import ClauseFail, spec_key
 
@@ -43,7 +44,7 @@ ASSUMPTIONS = [
     'side effects on the global generators are not judged (the property speaks about results only)']
 REQUIRED = ['entry:' + e for e in ENTRIES] + ['indep', 'gen', 'other:trunc', 'step:npseed', 'step:pyseed',
                                                'same_family_outputs', 'times:repeated', 'seed:numpy_int', 'pop:hetero_small_calls',
-                                               'pop:noncentered:gauss', 'pop:noncentered:lognorm', 'pop:trunc', 'pop:cov']
+                                               'pop:noncentered:gauss', 'pop:noncentered:lognorm', 'pop:trunc', 'pop:cov', 'partial_block']
 SEEDS = st.integers(0, 2 ** 31 - 2)
 GEN_ENTRIES = ('em', 'pop', 'pred', 'poppred', 'prior', 'post')
 DF_ENTRIES = ('prior', 'post', 'pam')
@@ -486,6 +487,21 @@ def _build(spec):
             for o in range(ll['n_out']):
                 cols += list(_std_noise(ll['ems'][o]['kind'], sigs[o], ybar[o][:, np.newaxis], y[o]))
             return np.array(cols).T
+        def partial_block(seed, k, n):
+            """Mechanistic parameters simulated for n virtual patients of a population whose last (noise) dimension is
+            heterogeneous over k individuals and whose other dimensions are log-normal."""
+            nd = pm.n_parameters()
+            hpop = chi.ComposedPopulationModel([chi.LogNormalModel(n_dim=nd - 1), chi.HeterogeneousModel(n_dim=1, n_ids=k)])
+            hmodel = chi.PopulationPredictiveModel(
+                chi.PredictiveModel(llbuild.build_model(ll), llbuild.build_error_models(ll)), hpop)
+            th = np.array([0.1 * d for d in range(nd - 1)] + [0.3] * (nd - 1) + [0.2 + 0.05 * i for i in range(k)])
+            analytic_model.SIM_LOG[0] = []
+            try:
+                hmodel.sample(th, times.copy(), n_samples=n, seed=seed, return_df=False)
+                return list(analytic_model.SIM_LOG[0])
+            finally:
+                analytic_model.SIM_LOG[0] = None
+        meta['partial_block'] = partial_block
         meta['cols'] = bool(t['pooled'])
         meta['array_call'] = lambda seed, n: np.asarray(call(seed, n, False), dtype=float)
         return call, noise, meta
@@ -858,6 +874,21 @@ def check(case):
                 r3, r4 = canon(dcall(None)), canon(dcall(None))
                 if same(r3, r4) or same(r1, r3):
                     case.fail('identical', 'successive calls without a seed return identical results (%s)' % _describe(r1, r2))
+
+    # ---- more virtual patients than a heterogeneous part has individuals, and no multiple of their number: every
+    # patient is simulated once, with continuous parameters of their own
+    if ran and meta.get('partial_block') is not None:
+        with case.clause('partial_block:' + entry):
+            for k, n in ((4, 6), (3, 7), (2, 3), (3, 2), (3, 6)):
+                sims = meta['partial_block'](seeds['A'], k, n)
+                case.equal(len(sims), n, 'number of simulations for %d virtual patients (heterogeneous part over %d '
+                           'individuals)' % (n, k), kind='count')
+                case.true(len(set(sims)) == n, '%d virtual patients (heterogeneous part over %d individuals): %d patients '
+                          'were simulated with the very same log-normally distributed parameters as another patient: %r'
+                          % (n, k, n - len(set(sims)), [list(t_[:2]) for t_ in sims]), kind='identical')
+                case.equal(meta['partial_block'](seeds['A'], k, n), sims, 'simulated parameters of two calls with seed %d'
+                           % seeds['A'])
+            case.labels.append('partial_block')
 
     if ran and meta.get('prior_draws') is not None:
         with case.clause('unseeded_prior_draws:' + entry):
